@@ -95,6 +95,7 @@ type Tracker struct {
 	NWrites, NBlockWrites, NAffWrites, NHandleWrites int64
 	NAllocs, NFrees                                  int64
 	NChecks                                          int64
+	NGivenUp, NConfirms                              int64 // blocks whose affinity was given up; affinities written as confirmed
 }
 
 // NewTracker installs a tracker as the store's OnCommit hook.
@@ -196,6 +197,9 @@ func (t *Tracker) onCommit(wr *casstore.Write) {
 		t.NAffWrites++
 		if t.opts.KeepValues {
 			rec.Value = string(wr.NewRaw)
+		}
+		if aff, ok := wr.New().(*model.BlockAffinity); ok && aff.State == model.StateConfirmed {
+			t.NConfirms++
 		}
 		if t.opts.Affinity {
 			t.checkAffinityInvariants(wr, k.CIDR.String(), op)
@@ -378,6 +382,7 @@ func (t *Tracker) checkBlockAffinityWrite(wr *casstore.Write, cidr string, oldB,
 	// hold no live allocation.
 	if oldB != nil && oldB.Affinity != nil && (newB == nil || newB.Affinity == nil) {
 		t.NChecks++
+		t.NGivenUp++
 		n, addrs := liveCount(oldOwn)
 		if n > 0 && op != nil && op.MustBeEmpty {
 			// Allocations that this very operation releases in the same write do not count.
